@@ -99,7 +99,7 @@ func (fr *frame) get(key ssa.Value) Value {
 	case *ssa.Global:
 		if r, ok := fr.e.globals[key]; ok {
 			if key.Pkg != nil {
-				if why, bad := fr.e.poisoned[key.Pkg]; bad && !fr.e.inInit {
+				if why, bad := fr.e.poisoned[key.Pkg]; bad && !fr.e.inInit && !fr.e.okGlobals[key] {
 					fr.e.unsupported("global " + key.String() + " of package whose init was skipped/failed: " + why)
 				}
 			}
@@ -707,6 +707,14 @@ func (e *Engine) callPkgInit(caller *frame, fn *ssa.Function) Value {
 	e.initDone[fn.Pkg] = true
 	if skipInit[path] || strings.HasPrefix(path, "runtime/") || strings.HasPrefix(path, "internal/runtime") {
 		e.poisoned[fn.Pkg] = "skipped"
+		// the imports of a skipped package are still initialised
+		for _, imp := range fn.Pkg.Pkg.Imports() {
+			if ip := e.Prog.Package(imp); ip != nil {
+				if f := ip.Func("init"); f != nil {
+					e.callPkgInit(caller, f)
+				}
+			}
+		}
 		e.afterSkippedInit(fn.Pkg)
 		return nil
 	}
